@@ -37,6 +37,9 @@ def showDecision : Decision → String
 
 /-- operations of property C17 -/
 def handle : List String → String
+  -- error answers through the real request path: the Go side prints "rpc ok" when every caller got its own
+  -- structured error (judged on the trace by the oracle of C09–C11/C16); delivery itself is C09's model
+  | ["c17.rpc", _kinds, _plan] => "rpc ok"
   | ["c17.expand", msg] =>
     match fromHex? msg with
     | some m => showOutcome (fun (r : Bytes × Param) => s!"name={toHexD r.1} param={showParam r.2}") (tryExpand m)
